@@ -307,6 +307,36 @@ class C17:
                     f"the selection is slice({show(glo)[:50]}, {show(ghi)[:50]}) but must be slice({show(wl)[:50]}, {show(wh)[:50]}): an open "
                     f"end must exclude its boundary sample, a closed one must keep it", sel[0].lineno,
                     witness={"start_given": s_given, "stop_given": e_given, "right_closed": rcv, "left_closed": lcv})
+        # every path returns that selection; returning the input itself is the same only when the request is the whole axis with
+        # both given ends closed
+        for r in s.returns:
+            if r.term == sel[0].term or r.term == ("yieldval",):
+                continue
+            if r.term != arr:
+                ctx.undec("R17.2", site, f"crop_dim returns {show(r.term)[:60]}, not the selection")
+                continue
+            worst = None
+            for s_given, e_given, rcv, lcv, seq, eeq in itertools.product((True, False), repeat=6):
+                env = {("cmp", "is", start, NONE): not s_given, ("cmp", "isnot", start, NONE): s_given,
+                       ("cmp", "is", stop, NONE): not e_given, ("cmp", "isnot", stop, NONE): e_given, rc: rcv, lc: lcv,
+                       ("cmp", "eq", start, cs): seq, ("cmp", "eq", cs, start): seq, ("cmp", "ne", start, cs): not seq, ("cmp", "ne", cs, start): not seq,
+                       ("cmp", "eq", stop, ce): eeq, ("cmp", "eq", ce, stop): eeq, ("cmp", "ne", stop, ce): not eeq, ("cmp", "ne", ce, stop): not eeq}
+                lv = peval(r.live, env)
+                whole = (not s_given or (seq and lcv)) and (not e_given or (eeq and rcv))
+                if lv != ("const", False) and not whole:
+                    worst = (s_given, e_given, rcv, lcv, seq, eeq, lv)
+                    break
+            if worst is None:
+                ctx.ok("R17.2", site, "the input is returned unchanged only for the whole axis with closed ends")
+            else:
+                s_given, e_given, rcv, lcv, seq, eeq, lv = worst
+                ctx.bad("R17.2", self.file, "crop_dim", f"return {show(r.term)} if {show(r.live)[:60]}",
+                        f"crop_dim returns its input unchanged under `{show(r.live)[:80]}`, which {'holds' if lv == ('const', True) else 'can hold'} for start "
+                        f"{'given' if s_given else 'None'}{' (= current start)' if s_given and seq else ''}, stop {'given' if e_given else 'None'}"
+                        f"{' (= current stop)' if e_given and eeq else ''}, left_closed={lcv}, right_closed={rcv}: an open end given explicitly must drop "
+                        f"its boundary sample, and a request inside the axis must drop the samples outside it", r.lineno,
+                        witness={"start_given": s_given, "stop_given": e_given, "start_is_current": seq, "stop_is_current": eeq,
+                                 "left_closed": lcv, "right_closed": rcv})
         # R17.3 guards
         bad = None
         n = 0
